@@ -16,7 +16,9 @@
                               (class: TableDistribution for the last axis of a probability table)
      is_row_dist t r ps f     r is a TableDistribution over field f: support = domain of f,
                               prob(j-th event) = cell t (ps ++ [j]), prob(foreign scalar) = default
-   All theorems hold for any number of fields and any domain sizes.                               *)
+   Domains may be held in a domaintuple, a plain tuple or a plain list (fkind; TableIndex(fields=[Field(..)])
+   keeps the caller's container): all theorems hold for every container kind,
+   any number of fields and any domain sizes.                               *)
 From Coq Require Import ZArith List Bool.
 From MSDM Require Import model.PyVal model.Table theory.TableTheory.
 Import ListNotations.
@@ -75,7 +77,7 @@ Print Assumptions keys_items_len.
 Theorem outer_list_subtable : forall t ks js, wf t -> ks <> [] -> forallb plainkey ks = true ->
   index_into_domain ks (dom0 (tix t)) = Ok js -> NoDup js ->
   exists t', (getitem t (PList ks) = Ok (GTable t') \/ (getitem t (PList ks) = Ok GSelf /\ t' = t)) /\
-     tindex_eqb (tix t') (match tix t with f :: fs => mkField (fname f) (restrict (fdom f) js) :: fs | [] => [] end) = true /\
+     tindex_eqb (tix t') (match tix t with f :: fs => mkField (fname f) (restrict (fdom f) js) DKDom :: fs | [] => [] end) = true /\
      forall j rest, j < length js -> tcell t' (j :: rest) = tcell t (nth j js 0 :: rest).
 Proof. exact outer_list_subtable_thm. Qed.
 Print Assumptions outer_list_subtable.
@@ -133,7 +135,7 @@ Theorem foreign_key_raises_tuple : forall t ks ps k rest, wf t ->
   forallb plainkey (ks ++ k :: rest) = true -> keys_at ks (tix t) ps ->
   length (ks ++ k :: rest) <= length (tix t) ->
   is_seqval k = false ->
-  index_of k (fdom (nth (length ps) (tix t) (mkField PNone []))) = None ->
+  index_of k (fdom (nth (length ps) (tix t) (mkField PNone [] DKDom))) = None ->
   not_outer_element t (PTuple (ks ++ k :: rest)) ->
   getitem_raw t (PTuple (ks ++ k :: rest)) = Err EIndex /\
   getitem t (PTuple (ks ++ k :: rest)) = Err (if cls_state (tcls t) then EStateAction else EIndex) /\
